@@ -18,7 +18,10 @@ use sciparse::{
     address::host_addr::HostAddressSizeError,
     dataplane_path::{
         onehop::view::OneHopPathView,
-        standard::{mac::ForwardingKey, types::InfoFieldFlags},
+        standard::{
+            mac::{ForwardingKey, algo::calculate_hop_mac},
+            types::InfoFieldFlags,
+        },
     },
     identifier::isd_asn::IsdAsn,
     packet::view::ScionRawPacketView,
@@ -133,14 +136,53 @@ impl OneHopRoutingLogic {
     pub fn handle_one_hop_path_egress(
         _local_as: IsdAsn,
         path: &mut OneHopPathView,
-        _now: ScionNetworkTime,
-        _forwarding_key: &ForwardingKey,
-        _interface_link_type_lookup: &impl Fn(u16) -> Option<AsRoutingInterfaceState>,
-        _ignore_macs: bool,
+        now: ScionNetworkTime,
+        forwarding_key: &ForwardingKey,
+        interface_link_type_lookup: &impl Fn(u16) -> Option<AsRoutingInterfaceState>,
+        ignore_macs: bool,
     ) -> Result<AsRoutingAction, OneHopRoutingError> {
-        // TODO: We skip all non required checks at the moment, as well as SCMP handling and
-        // interface down handling
+        // TODO: SCMP handling is skipped at the moment
         let is_construction_dir = path.info_field().flags().contains(InfoFieldFlags::CONS_DIR);
+
+        // The first hop field was issued by this AS: it must be unexpired and authentic, and it
+        // must name an existing interface whose link is up.
+        {
+            let info_field = path.info_field();
+            let [hf1, _] = path.hop_fields();
+
+            if hf1.expiry_timestamp(info_field) < now.timestamp_secs() {
+                return Err(OneHopRoutingError::HopFieldExpired);
+            }
+
+            if !ignore_macs {
+                let expected_mac = calculate_hop_mac(
+                    info_field.segment_id(),
+                    info_field.timestamp(),
+                    hf1.exp_time(),
+                    hf1.cons_ingress(),
+                    hf1.cons_egress(),
+                    forwarding_key,
+                );
+
+                if hf1.mac().0 != expected_mac {
+                    return Err(OneHopRoutingError::InvalidMac);
+                }
+            }
+
+            match (interface_link_type_lookup)(hf1.cons_egress()) {
+                None => {
+                    return Err(OneHopRoutingError::UnknownEgressInterface(
+                        hf1.cons_egress(),
+                    ));
+                }
+                Some(egress_if) if !egress_if.is_up => {
+                    return Err(OneHopRoutingError::EgressInterfaceDown(
+                        hf1.cons_egress(),
+                    ));
+                }
+                Some(_) => {}
+            }
+        }
 
         // UPDATE: Segment ID if we are in construction direction
         if is_construction_dir {
@@ -184,6 +226,22 @@ pub enum OneHopRoutingError {
     /// The packet's destination address is invalid or malformed
     #[error("the packet's destination address is invalid or malformed ({0})")]
     InvalidDstAddress(HostAddressSizeError),
+
+    /// The first hop field has expired
+    #[error("the first hop field of the one-hop path has expired")]
+    HopFieldExpired,
+
+    /// The MAC of the first hop field does not verify with the forwarding key of the AS
+    #[error("the first hop field of the one-hop path has an invalid MAC")]
+    InvalidMac,
+
+    /// The first hop field names an egress interface the AS does not have
+    #[error("the one-hop path names unknown egress interface {0}")]
+    UnknownEgressInterface(u16),
+
+    /// The link of the egress interface is down
+    #[error("egress interface {0} of the one-hop path is down")]
+    EgressInterfaceDown(u16),
 }
 
 impl OneHopRoutingError {
@@ -194,6 +252,10 @@ impl OneHopRoutingError {
             Self::AdvanceFailed => None,
             Self::EmptyHopFieldInNonConstructionDirection => None,
             Self::InvalidDstAddress(_) => None,
+            Self::HopFieldExpired => None,
+            Self::InvalidMac => None,
+            Self::UnknownEgressInterface(_) => None,
+            Self::EgressInterfaceDown(_) => None,
         }
     }
 }
